@@ -296,7 +296,7 @@ func init() {
 		QuickBudgetS: 150, ThoroughBudgetS: 1200,
 		Spaces: func(tier string) []*core.Space {
 			forms, structure, _ := scopeAlphabets()
-			sp := []*core.Space{c12TestdataSpace(),
+			sp := []*core.Space{c12TestdataSpace(), c12ObjectSpace(),
 				c12GenSpace(scopeSpaceDef{"forms-1node", forms, 1, 1, otherVariants, 1, false}),
 				c12GenSpace(scopeSpaceDef{"structure<=2-all-second-files", structure, 1, 2, otherVariants, 1, false}),
 				c12GenSpace(scopeSpaceDef{"structure<=2-on-one-line", structure, 1, 2, otherVariants[:1], 1, true}),
